@@ -3,7 +3,7 @@ import BalmProofs.WeakSpec
 import BalmProofs.BlockSpec
 import BalmProofs.JudgeSpec
 import Balm
-import BalmProofs.Props.C04
+import BalmProofs.PlainInv
 import BalmProofs.AttrTest
 import BalmProofs.Bfs
 import BalmProofs.Drivers
